@@ -14,8 +14,8 @@ from detsim import corrupt, gen, rng
 
 PROP = "C18"
 LEVEL = "exploration"
-RUNS = {"quick": 640, "thorough": 12000}
-BUDGET_S = {"quick": 60, "thorough": 900}
+RUNS = {"quick": 2400, "thorough": 30000}
+BUDGET_S = {"quick": 90, "thorough": 1500}
 CASES_PER_RUN = 120
 RULE = ("each evaluation is one text: a generated well-formed chart damaged by a seeded sequence "
         "of 1-8 storage faults (line drop/dup/swap/move/insert, char insert/delete/replace, "
